@@ -2,7 +2,7 @@
    Directives: ExtrOcamlBasic only (bool, option, list, prod, unit, sumbool -> OCaml);
    N / Z / positive / nat stay the extracted inductive datatypes. *)
 From Coq Require Extraction ExtrOcamlBasic.
-From TV Require C14Run C19Run C16Run C17Run C15Run C20Run C12Run C18Run PoolRun PoolChk SvcRun IpamRun PeRun DpRun C03Run C07Run.
+From TV Require C14Run C19Run C16Run C17Run C15Run C20Run C12Run C18Run PoolRun PoolChk SvcRun IpamRun PeRun DpRun C03Run C07Run C09Run.
 Extraction Language OCaml.
 Extraction "model.ml" C14Run.run_c14 C14Run.chk_c14
   C19Run.run_c19 C19Run.chk_c19
@@ -18,4 +18,5 @@ Extraction "model.ml" C14Run.run_c14 C14Run.chk_c14
   PeRun.run_pe PeRun.chk_c10 PeRun.chk_c11 PeRun.why_pe
   DpRun.run_dp DpRun.chk_c13 DpRun.why_dp
   C03Run.run_c03 C03Run.chk_c03_all C03Run.why_c03
-  C07Run.run_c07 C07Run.chk_c07_all C07Run.why_c07.
+  C07Run.run_c07 C07Run.chk_c07_all C07Run.why_c07
+  C09Run.run_c09 C09Run.chk_c09_all C09Run.why_c09.
